@@ -83,7 +83,8 @@ class C18(Prop):
         "dchoose_returns", "iid_never_fatal", "markov1_counts_exact", "cMarkov0_einval_or_ok", "xMarkov0_einval_or_ok", "cMarkov1_einval_or_ok", "xMarkov1_einval_or_ok",
         "dchoose_inverse_cdf", "markov0_frequencies_exact", "markov1_conditional_exact", "iid_never_fatal_any_number_type", "qrna_status",
         "ieee_carrier_lawful", "ieee_L5", "iid_support_ieee", "iid_support_ieee_negzero", "iid_never_fatal_ieee", "cMarkov0_einval_or_ok_ieee", "xMarkov0_einval_or_ok_ieee",
-        "cMarkov1_einval_or_ok_ieee", "xMarkov1_einval_or_ok_ieee", "markov1_counts_exact_ieee")]
+        "cMarkov1_einval_or_ok_ieee", "xMarkov1_einval_or_ok_ieee", "markov1_counts_exact_ieee",
+        "iid_complete_ieee", "cMarkov0_complete_ieee", "xMarkov0_complete_ieee", "cMarkov1_complete_ieee", "xMarkov1_complete_ieee")]
     claimed = True
     technique = ("Lean 4 proof (Fisher-Yates/swap-loop invariants, permutation and support theorems for every generator state) + "
                  "exact differential correspondence of the executable model (on the C09 generator model) with the ASan/UBSan-built C code + python property monitors on the C output")
